@@ -60,3 +60,11 @@ func init() {
 		variant{Prop: "C14", Name: "perf-trivia-list-truncated-and-shared-with-the-token", Patch: "benign/C04-r10-3/patch.diff", File: "lexer/base_functions.go", Old: "LeadingComments: append([]string(nil), l.leadingComments...),", New: "LeadingComments: l.leadingComments,", Nth: 1, Rule: "R14.5", Construct: "LeadingComments"},
 	)
 }
+
+// the library "one release later": twelve of round 10's feature PRs applied together (seeded/future-base.diff, the base
+// of round 11) — every check stays silent on it
+func init() {
+	for _, p := range []string{"C01", "C02", "C03", "C04", "C05", "C06", "C07", "C08", "C09", "C10", "C11", "C12", "C13", "C14", "C15", "C16"} {
+		addVariants(variant{Prop: p, Name: "future-base-" + p, Patch: "seeded/future-base.diff", Benign: true})
+	}
+}
